@@ -502,7 +502,52 @@ impl Walk {
     }
 }
 
+/// `Arena::clear`: does it reset every block, unconditionally?  (`for b in &mut self.buckets { b.clear(); }`,
+/// `.iter_mut()`, `.for_each(|b| b.clear())`, `.for_each(Bucket::clear)`)
+fn arena_clear_shape(f: &syn::ImplItemFn) -> String {
+    let body: Vec<&Stmt> = f.block.stmts.iter().filter(|s| !matches!(s, Stmt::Macro(m) if squash(&toks(&m.mac.path)).starts_with("debug_assert"))).collect();
+    if body.len() != 1 {
+        return format!("(.other {})", lean::s(&squash(&toks(&f.block))));
+    }
+    let all = |it: &str| matches!(it, "&mutself.buckets" | "self.buckets.iter_mut()" | "(&mutself.buckets).into_iter()" | "&mutself.buckets[..]");
+    let ok = match body[0] {
+        Stmt::Expr(Expr::ForLoop(fl), _) => {
+            let it = squash(&toks(&*fl.expr));
+            let var = squash(&toks(&*fl.pat));
+            let b = squash(&toks(&fl.body));
+            all(&it) && (b == format!("{{{var}.clear();}}") || b == format!("{{{var}.clear()}}") || b == format!("{{Bucket::clear({var});}}"))
+        }
+        Stmt::Expr(Expr::MethodCall(m), _) if m.method == "for_each" && m.args.len() == 1 => {
+            let recv = squash(&toks(&*m.receiver));
+            let a = squash(&toks(&m.args[0]));
+            let closure_ok = a == "Bucket::clear" || {
+                let mut it = a.splitn(3, '|');
+                matches!((it.next(), it.next(), it.next()), (Some(""), Some(v), Some(body)) if body == format!("{v}.clear()") || body == format!("{{{v}.clear();}}") || body == format!("{{{v}.clear()}}"))
+            };
+            all(&recv) && closure_ok
+        }
+        _ => false,
+    };
+    if ok {
+        ".everyBlock".into()
+    } else {
+        format!("(.other {})", lean::s(&squash(&toks(&f.block))))
+    }
+}
+
 pub fn emit(src: &Path, out: &mut String) {
+    // `clear` of the single-threaded arena and of its blocks
+    let spath = src.join("arenas/single_threaded.rs");
+    let bpath0 = src.join("arenas/bucket.rs");
+    if spath.exists() && bpath0.exists() {
+        let sf = parse_file(&spath);
+        let bf = parse_file(&bpath0);
+        let shape = find_fn(&sf, "Arena", None, "clear").map(arena_clear_shape).unwrap_or_else(|| "(.other \"no Arena::clear\")".into());
+        let resets = find_fn(&bf, "Bucket", None, "clear").map(|f| squash(&toks(&f.block)) == "{self.index=0;}").unwrap_or(false);
+        out.push_str("/-- `Arena::clear`: every block, unconditionally; `Bucket::clear`: the fill index back to 0. -/\n");
+        out.push_str(&format!("def arenaClearShape : ClearShape := {shape}\n"));
+        out.push_str(&format!("def bucketClearResetsIndex : Bool := {}\n\n", lean::boolean(resets)));
+    }
     // census
     let files = [
         "lib.rs", "rodeo.rs", "threaded_rodeo.rs", "reader.rs", "resolver.rs", "util.rs", "keys.rs", "arenas/mod.rs",
